@@ -461,6 +461,17 @@ def main():
     # recovered is an acknowledged write this node no longer has
     import recoverlib
     recoverlib.run(tier, v, "C08", cov)
+    if any("snapshot of a Ready is saved after" in why for why in divergences):
+        # B3: the observed order of the durable steps is given to Recover.tla; its behaviours are replayed on real files
+        recoverlib.run(tier, v, "C08", cov, as_observed="save_first")
+    for gate in (["walsave"] if tier == "quick" else ["savesnap", "walsave", "append"]):
+        probs, st = clusterscen.snapshot_install_crash(gate, seed=seed)
+        cov.setdefault("ready_loop_snapshot_install", {})[gate] = st
+        for pr in probs or []:
+            v.report({"branch": "readyloop.snapshot-install", "kind": pr["kind"], "detail": gate}, pr, what=pr["detail"])
+        if st.get("ready_snapshot_order") == "save_first" and "recover_model_as_observed" not in cov:
+            print("DIVERGENCE property=C08 the Ready loop saved the hard state of a snapshot-carrying Ready before the snapshot; instantiating Recover.tla with the observed order", flush=True)
+            recoverlib.run(tier, v, "C08", cov, as_observed="save_first")
     if not v.violations:
         if divergences:
             common.die_infra("conformance divergence without a reproduced property violation (see DIVERGENCE lines): the real nodes "
